@@ -480,10 +480,55 @@ pub fn runtime() -> Runtime<NoCtx> {
             lp!("out_list_i32", vec![V::list(v)]);
         }
     });
+    // Two input functions are registered as CAPTURING closures (three words captured by value),
+    // so that every executor of a registered function - the compiled code's call shim and the IR
+    // evaluator's wrapper - also has to find the state of a closure, not only call fn items.
+    let salt: [u64; 3] = CAP_SALT;
+    let mut caps = roto::Library::new();
+    caps.add(
+        roto::Function::new(
+            "in_cap_i64",
+            "input word k as i64, mixed with the closure's captured state",
+            vec!["k"],
+            move |k: u32| -> i64 {
+                let v = (conv::int_of(IntTy::I64, word(k)) as i64) ^ ((salt[0] ^ salt[1].rotate_left(17) ^ salt[2].rotate_left(41)) as i64);
+                lp!("in_cap_i64", vec![V::Int(IntTy::U32, k as i128)]);
+                v
+            },
+            roto::location!(),
+        )
+        .expect("in_cap_i64 registers")
+        .into(),
+    );
+    caps.add(
+        roto::Function::new(
+            "in_cap_u32",
+            "input word k as u32, mixed with the closure's captured state",
+            vec!["k"],
+            move |k: u32| -> u32 {
+                let v = (conv::int_of(IntTy::U32, word(k)) as u32) ^ ((salt[0] ^ salt[1].rotate_left(17) ^ salt[2].rotate_left(41)) as u32);
+                lp!("in_cap_u32", vec![V::Int(IntTy::U32, k as i128)]);
+                v
+            },
+            roto::location!(),
+        )
+        .expect("in_cap_u32 registers")
+        .into(),
+    );
+    acc.add(caps);
     for l in acc.0 {
         rt.add(l).expect("harness library registers");
     }
     rt
+}
+
+/// State captured by the closures `in_cap_i64` / `in_cap_u32`.
+pub const CAP_SALT: [u64; 3] = [0x0123_4567_89ab_cdef, 0xfeed_face_cafe_beef, 0x0f1e_2d3c_4b5a_6978];
+
+/// What the captured state contributes to the value of `in_cap_*` (the reference interpreter
+/// computes the same from the constant).
+pub fn cap_mix() -> u64 {
+    CAP_SALT[0] ^ CAP_SALT[1].rotate_left(17) ^ CAP_SALT[2].rotate_left(41)
 }
 
 
